@@ -103,10 +103,10 @@ class PhaseField(_Simu):
         assert isinstance(model, Models.PhaseField), "model must be a phase field model"
         super().__init__(mesh, model, folder, verbosity)
 
-        # Init internal variable
-        self.__psiP_e_pg: FeArray.FeArrayALike = np.empty(0, dtype=float)
+        # Init internal variable (one field per group of elements, keyed by the element type)
+        self.__psiP_e_pg: dict[str, FeArray.FeArrayALike] = {}
         # old positive elastic energy density psiPlus(e, pg, 1) to use the miehe history field
-        self.__old_psiP_e_pg: FeArray.FeArrayALike = np.empty(0, dtype=float)
+        self.__old_psiP_e_pg: dict[str, FeArray.FeArrayALike] = {}
 
         self.Need_Update()
 
@@ -511,17 +511,15 @@ class PhaseField(_Simu):
         psiP_e_pg, _ = phaseFieldModel.Calc_psi_e_pg(Epsilon_e_pg)
 
         if phaseFieldModel.solver == "History":
-            # Get the old history field
-            old_psiPlus_e_pg = self.__old_psiP_e_pg.copy()  # type: ignore [union-attr]
+            # Get the old history field of this group of elements
+            old_psiPlus_e_pg = self.__old_psiP_e_pg.get(groupElem.elemType)
 
-            if isinstance(old_psiPlus_e_pg, list) and len(old_psiPlus_e_pg) == 0:
-                # No damage available yet
-                old_psiPlus_e_pg = np.zeros_like(psiP_e_pg)
-
-            if old_psiPlus_e_pg.shape != psiP_e_pg.shape:
-                # the mesh has been changed, the value must be recalculated
+            if old_psiPlus_e_pg is None or old_psiPlus_e_pg.shape != psiP_e_pg.shape:
+                # No damage available yet or the mesh has been changed, the value must be recalculated
                 # here do nothing
                 old_psiPlus_e_pg = np.zeros_like(psiP_e_pg)
+            else:
+                old_psiPlus_e_pg = old_psiPlus_e_pg.copy()
 
             inc_H = psiP_e_pg - old_psiPlus_e_pg
 
@@ -533,9 +531,9 @@ class PhaseField(_Simu):
             # old = np.linalg.norm(self.__old_psiP_e_pg)
             # assert new >= old, "Error"
 
-        self.__psiP_e_pg = FeArray.asfearray(psiP_e_pg)
+        self.__psiP_e_pg[groupElem.elemType] = FeArray.asfearray(psiP_e_pg)
 
-        return self.__psiP_e_pg
+        return self.__psiP_e_pg[groupElem.elemType]
 
     def __Construct_Damage_Matrix(self):
 
@@ -622,7 +620,7 @@ class PhaseField(_Simu):
 
         if self.phaseFieldModel.solver == self.phaseFieldModel.SolverType.History:
             # update old history field for next resolution
-            self.__old_psiP_e_pg = self.__psiP_e_pg
+            self.__old_psiP_e_pg = dict(self.__psiP_e_pg)
 
         iter["displacement"] = self.displacement
         iter["damage"] = self.damage
@@ -650,9 +648,12 @@ class PhaseField(_Simu):
             and self.phaseFieldModel.solver == self.phaseFieldModel.SolverType.History
         ):
             # It's really useful to do this otherwise when we calculate psiP there will be a problem
-            self.__old_psiP_e_pg = FeArray.zeros(*self.__old_psiP_e_pg.shape)
+            self.__old_psiP_e_pg = {}
             # update psi+ with the current state
-            self.__old_psiP_e_pg = self.__Calc_psiPlus_e_pg(self.mesh.groupElem)
+            self.__old_psiP_e_pg = {
+                groupElem.elemType: self.__Calc_psiPlus_e_pg(groupElem)
+                for groupElem in self.mesh.Get_list_groupElem()
+            }
 
         return results
 
